@@ -77,10 +77,10 @@ def main(pid, tier, seed):
     tid = 0
     det_jobs = []
 
-    def add(pcfg, hist, exact, g, m, ev2=None):
+    def add(pcfg, hist, exact, g, m, ev2=None, bad=()):
         nonlocal tid
         tid += 1
-        p, i = ptq.to_traces(tid, pcfg, hist, mode, exact=exact, int_grammar=g, ev2=ev2)
+        p, i = ptq.to_traces(tid, pcfg, hist, mode, exact=exact, int_grammar=g, ev2=ev2, bad_groups=bad)
         ptraces.append(p)
         if i is not None:
             itraces.append(i)
@@ -126,7 +126,8 @@ def main(pid, tier, seed):
             m = {'kind': 'float_ruleset', 'ruleset': desc, 'flags': flags}
             if pid in ('C01', 'C02'):
                 hist = ptq.run_history(pcfg, [], with_queue=False)
-                p = add(pcfg, hist, False, None, dict(m, cuts=[]))
+                bad = ptq.file_disagreements(d, pcfg) if pid == 'C01' and not flags.get('skip_case') else ()
+                p = add(pcfg, hist, False, None, dict(m, cuts=[], groups_disagreeing_with_files=sorted(bad)), bad=bad)
                 if pid == 'C01' and fi % 4 == 0:
                     det_jobs.append((p, {'dir': d, 'flags': flags, 'exact': False}))
             else:
